@@ -1374,27 +1374,54 @@ func runC09(c *Ctx) {
 		}
 		return true
 	})
+	// the id of the node the step found: cursor.ID(), written in place or held in a local
 	isCursorID := func(e ast.Expr) bool {
-		call, ok := ast.Unparen(e).(*ast.CallExpr)
-		if !ok || len(call.Args) != 0 {
+		if cursor == nil {
 			return false
 		}
-		se, ok := call.Fun.(*ast.SelectorExpr)
-		return ok && se.Sel.Name == "ID" && cursor != nil && lf.varOf(se.X) == cursor
+		if call, ok := ast.Unparen(e).(*ast.CallExpr); ok && len(call.Args) == 0 {
+			if se, ok := call.Fun.(*ast.SelectorExpr); ok && se.Sel.Name == "ID" && lf.varOf(se.X) == cursor {
+				return true
+			}
+		}
+		// a local defined once as cursor.ID()
+		if v := lf.varOf(e); v != nil {
+			if defs := lf.defsOf(v); len(defs) == 1 && !defs[0].multi && defs[0].rhs != nil {
+				if call, ok := ast.Unparen(defs[0].rhs).(*ast.CallExpr); ok && len(call.Args) == 0 {
+					if se, ok := call.Fun.(*ast.SelectorExpr); ok && se.Sel.Name == "ID" && lf.varOf(se.X) == cursor {
+						return true
+					}
+				}
+			}
+		}
+		return false
 	}
 	atSelf := func(fs *FactSet) bool {
 		return fs.Equal(func(x, y ast.Expr) bool { return isCursorID(x) && lf.Prov(y) == pSelf })
 	}
+	// the visited set: a map indexed by the cursor's id
 	var seenMap *types.Var
-	visited := func(fs *FactSet) bool {
-		return fs.Cmp(func(e, tag ast.Expr, truth bool, fa *Fact) bool {
-			ix, ok := ast.Unparen(e).(*ast.IndexExpr)
-			if !ok || tag != nil || !truth || !isCursorID(ix.Index) {
-				return false
+	for _, nd := range shallowNodes(loop.Body) {
+		if ix, ok := nd.(*ast.IndexExpr); ok && isCursorID(ix.Index) {
+			if m := lf.varOf(ix.X); m != nil {
+				if _, isMap := m.Type().Underlying().(*types.Map); isMap {
+					seenMap = m
+				}
 			}
-			seenMap = lf.varOf(ix.X)
-			return seenMap != nil
-		})
+		}
+	}
+	visited := func(fs *FactSet) bool {
+		if seenMap == nil {
+			return false
+		}
+		for _, nd := range shallowNodes(loop.Body) {
+			if ix, ok := nd.(*ast.IndexExpr); ok && isCursorID(ix.Index) && lf.varOf(ix.X) == seenMap {
+				if lf.inSeen(fs, seenMap, lf.Prov(ix.Index)) {
+					return true
+				}
+			}
+		}
+		return false
 	}
 	ast.Inspect(loop.Body, func(n ast.Node) bool {
 		switch x := n.(type) {
